@@ -58,7 +58,18 @@ func (f *FlagFlow) Run() {
 			st = f.Transfer(instr, st)
 			if _, ok := instr.(*ssa.RunDefers); ok {
 				for i := len(defers) - 1; i >= 0; i-- {
-					st = f.Transfer(defers[i], st)
+					// replay only deferred calls that were registered on the way
+					// here: for must-flows those that dominate this point, for
+					// may-flows those that can reach it
+					d := defers[i]
+					if f.Must {
+						if !instrDominates(d, instr) {
+							continue
+						}
+					} else if d.Block() != b && !reachableFrom(d.Block(), nil)[b] {
+						continue
+					}
+					st = f.Transfer(d, st)
 				}
 			}
 		}
